@@ -173,3 +173,127 @@ func genNoReentrantLocks(sb *strings.Builder) error {
 	fmt.Fprintf(sb, "Definition no_reentrant_locks : bool := %v.\n\n", len(offenders) == 0)
 	return nil
 }
+
+func init() {
+	genSections = append(genSections, genLocksReleased)
+}
+
+// genLocksReleased: every mutex acquisition in the packages under test is released on every path,
+// in one of the two shapes whose correctness is visible without a control-flow analysis: the
+// lock statement is immediately followed by the matching deferred unlock, or the matching unlock
+// follows in the same statement list with only plain assignments / expression statements in
+// between (no branch, return, loop or block).  A path that returns with a lock held stalls every
+// worker that needs the lock afterwards.
+func genLocksReleased(sb *strings.Builder) error {
+	var offenders []string
+	total := 0
+	// sel: expression X in X.Lock(); printed form identifies the mutex
+	exprStr := func(e ast.Expr) string {
+		var b strings.Builder
+		var walk func(e ast.Expr)
+		walk = func(e ast.Expr) {
+			switch v := e.(type) {
+			case *ast.Ident:
+				b.WriteString(v.Name)
+			case *ast.SelectorExpr:
+				walk(v.X)
+				b.WriteString("." + v.Sel.Name)
+			default:
+				b.WriteString("?")
+			}
+		}
+		walk(e)
+		return b.String()
+	}
+	lockOf := func(e ast.Expr, names ...string) (string, string) {
+		call, ok := e.(*ast.CallExpr)
+		if !ok || len(call.Args) != 0 {
+			return "", ""
+		}
+		sel, ok := call.Fun.(*ast.SelectorExpr)
+		if !ok {
+			return "", ""
+		}
+		for _, n := range names {
+			if sel.Sel.Name == n {
+				return exprStr(sel.X), n
+			}
+		}
+		return "", ""
+	}
+	for _, pkg := range []string{"peering", "state", "router", "m", "storage", "switchr", "frame", "api/dns", "mgr", "config", "tun"} {
+		files, _ := filepath.Glob("/repo/" + pkg + "/*.go")
+		for _, file := range files {
+			if strings.HasSuffix(file, "_test.go") || strings.HasSuffix(file, "verif_hooks.go") {
+				continue
+			}
+			fset := token.NewFileSet()
+			f, err := parser.ParseFile(fset, file, nil, 0)
+			if err != nil {
+				return err
+			}
+			checkList := func(list []ast.Stmt, where string) {
+				for i, st := range list {
+					es, ok := st.(*ast.ExprStmt)
+					if !ok {
+						continue
+					}
+					mu, kind := lockOf(es.X, "Lock", "RLock")
+					if mu == "" {
+						continue
+					}
+					total++
+					unlock := map[string]string{"Lock": "Unlock", "RLock": "RUnlock"}[kind]
+					if i+1 < len(list) {
+						if ds, ok := list[i+1].(*ast.DeferStmt); ok {
+							if m2, _ := lockOf(ds.Call, unlock); m2 == mu {
+								continue
+							}
+						}
+					}
+					released := false
+					for j := i + 1; j < len(list); j++ {
+						if e2, ok := list[j].(*ast.ExprStmt); ok {
+							if m2, _ := lockOf(e2.X, unlock); m2 == mu {
+								released = true
+								break
+							}
+						}
+						switch list[j].(type) {
+						case *ast.AssignStmt, *ast.IncDecStmt, *ast.ExprStmt:
+							continue
+						}
+						break
+					}
+					if !released {
+						offenders = append(offenders, fmt.Sprintf("%s %s: %s.%s()", strings.TrimPrefix(file, "/repo/"), where, mu, kind))
+					}
+				}
+			}
+			for _, d := range f.Decls {
+				fd, ok := d.(*ast.FuncDecl)
+				if !ok || fd.Body == nil {
+					continue
+				}
+				ast.Inspect(fd.Body, func(n ast.Node) bool {
+					switch v := n.(type) {
+					case *ast.BlockStmt:
+						checkList(v.List, fd.Name.Name)
+					case *ast.CaseClause:
+						checkList(v.Body, fd.Name.Name)
+					case *ast.CommClause:
+						checkList(v.Body, fd.Name.Name)
+					}
+					return true
+				})
+			}
+		}
+	}
+	sort.Strings(offenders)
+	sb.WriteString("(* every mutex acquisition is released by an adjacent deferred unlock or a straight-line unlock (go/ast, whole packages) *)\n")
+	for _, o := range offenders {
+		fmt.Fprintf(sb, "(* offender: %s *)\n", o)
+	}
+	fmt.Fprintf(sb, "Definition lock_acquisitions : nat := %d.\nDefinition locks_released : bool := %v.\n\n", total, len(offenders) == 0)
+	return nil
+}
